@@ -191,3 +191,82 @@ def run(ctx):
                     if not ok:
                         r4.fail('FORMATTED_STRING/escapes', 'src/parser.rs:%d' % a['line'], 'f-string text parts are not passed through apply_escapes then apply_brace_escape')
     r4.need(3)
+
+    # ---------------- R18.6
+    table_lookups(ctx)
+
+
+def table_lookups(ctx):
+    """R18.6: the natives admit a start position equal to the length (the empty suffix; R18.2 tests `start > len`), so inside
+    FencedString a caller-supplied position may be looked up in the code-point table only in a way that tolerates
+    position == table length: `get`, a range slice, or an index dominated by a `position < len` test.  (Contradiction form: the
+    end position is looked up with `get`, the start position must not be looked up with a panicking index.)"""
+    from .lib import mirq
+    from .lib.facts import op_place, strip_generics, callee_name
+    r6 = ctx.rule('R18.6', 'caller-supplied positions are looked up in the code-point table only by length-tolerant accesses')
+    for b in ctx.mir.bodies:
+        if not b.nid.startswith('util::fenced_string::FencedString::'):
+            continue
+        for bb, t in b.calls():
+            nm = strip_generics(callee_name(t) or '')
+            is_index = nm.endswith('ops::Index>::index') or nm.endswith('ops::Index::index')
+            is_get = nm.endswith('[T]>::get') or nm.endswith('Vec::get')
+            if not (is_index or is_get) or len(t['args']) != 2:
+                continue
+            p0 = op_place(t['args'][0])
+            if p0 is None:
+                continue
+            # the receiver is (a reference to) the code-point table
+            def is_table(l, depth=6):
+                for _ in range(depth):
+                    ds = b.defs().get(l, [])
+                    if len(ds) != 1:
+                        return False
+                    kind, dbb, idx, x = ds[0]
+                    if kind == 'call':
+                        n2 = strip_generics(callee_name(x) or '')
+                        if n2.endswith('::deref') and x['args'] and op_place(x['args'][0]) is not None:
+                            l = op_place(x['args'][0])['l']
+                            continue
+                        return False
+                    rv = x['rv']
+                    if rv['k'] in ('ref', 'copyderef', 'use', 'cast'):
+                        pl = rv['place'] if 'place' in rv else op_place(rv['op'])
+                        if pl is None:
+                            return False
+                        if any(isinstance(e, dict) and e.get('n') == 'char_starts' for e in pl['p']):
+                            return True
+                        l = pl['l']
+                        continue
+                    return False
+                return False
+            if not is_table(p0['l']):
+                continue
+            p1 = op_place(t['args'][1])
+            ity = b.local_ty(p1['l']) if p1 is not None else ''
+            if ity != 'usize':
+                r6.inst({'fn': b.nid, 'access': 'range slice' if is_index else 'get', 'tolerates_len': True}, kind=(b.nid, bb))
+                continue
+            al, origins = mirq.move_origins(b, p1['l'])
+            from_param = [o[3] for o in origins if o[2] == 'param']
+            if is_get:
+                r6.inst({'fn': b.nid, 'access': 'get', 'tolerates_len': True}, kind=(b.nid, bb))
+                continue
+            if not from_param:
+                # an index computed here (e.g. len - 1 after an emptiness test): not a caller-supplied position
+                r6.inst({'fn': b.nid, 'access': 'index by a locally computed position', 'tolerates_len': None}, kind=(b.nid, bb))
+                continue
+            # dominated by a test relating the position to a length?
+            guarded = False
+            for d in b.dominators().get(bb, ()):
+                tm = b.term(d)
+                if d == bb or tm['k'] != 'switch' or op_place(tm['discr']) is None:
+                    continue
+                sl = mirq.backslice(b, [op_place(tm['discr'])['l']])
+                if set(from_param) & sl and any(c['dest']['l'] in sl and strip_generics(callee_name(c) or '').endswith('::len') for _, c in b.calls()):
+                    guarded = True
+            name = b.name_of_local(from_param[0]) or 'arg%d' % from_param[0]
+            r6.inst({'fn': b.nid, 'access': 'index by parameter `%s`' % name, 'tolerates_len': guarded}, ok=guarded, kind=(b.nid, bb))
+            if not guarded:
+                r6.fail('%s/char_starts[%s]' % (b.nid, name), mirq.site(b, bb), 'the code-point table is indexed by the caller-supplied position `%s` without a length test: a position equal to the length (admitted by the natives: the empty suffix) panics on strings with a table (non-ASCII), while the table-less branch returns the empty string' % name)
+    r6.need(4)
